@@ -231,3 +231,30 @@ def consts_to_refs(ast, consts):
             return ['ref', inv[n[1]]]
         return sg.with_children(n, [go(c) for c in sg.children(n)])
     return go(ast)
+
+
+def gen_shared_delays(rng, vars_, ops, **cfg):
+    """a formula in which one sub-formula is used at two places that need different delays after pastify(), together with
+    its modular form: returns (ast, defs, top) with defs = [['p1', shared]] and top referring to it through ['ref', 'p1']"""
+    for _ in range(50):
+        shared = sg.gen_formula(rng, sg.GenCfg(vars=vars_, ops=ops, max_depth=rng.randint(1, 2), max_bound=2, **cfg))
+        if shared[0] not in ('var', 'const') and shared[0] not in sg.TERM_UN + sg.TERM_BIN and sg.vars_of(shared):
+            break
+    else:
+        return None
+
+    def wrap(x):
+        for _ in range(rng.randint(1, 2)):
+            o = rng.choice(['eventually_b', 'always_b', 'next', 'not'])
+            x = [o, x] if o in ('next', 'not') else [o, rng.randint(0, 1), rng.randint(1, 3), x]
+        return x
+    l, r_ = wrap(shared), (shared if rng.random() < 0.6 else wrap(shared))
+    if rng.random() < 0.5:
+        l, r_ = r_, l
+    ast = [rng.choice(['and', 'or', 'implies']), l, r_]
+
+    def cut(x):
+        if sg.key(x) == sg.key(shared):
+            return ['ref', 'p1']
+        return sg.with_children(x, [cut(c) for c in sg.children(x)])
+    return ast, [['p1', shared]], cut(ast)
